@@ -56,6 +56,9 @@ type world struct {
 	// errLeft: how many authentic "no encryption keys" error pings each side may still send to the other (what a
 	// router does when traffic arrives that it has no keys for); they travel like every other message
 	errLeft [2]int
+	// stale: traffic frames sealed under the keys of the prior setup that are still on their way
+	stale          []staleFrame
+	staleDelivered bool
 	// windowHandledInside: the peer's request was handled completely while the local request was inside Send
 	windowHandledInside bool
 }
@@ -226,27 +229,50 @@ func (w *world) initiateInWindow(side int) error {
 
 // talk seals traffic at from and unseals it at to.
 func (w *world) talk(from, to int) error {
-	F, T := w.node(from), w.node(to)
-	sf := F.Inst.StateV.GetSession(T.ID.IP)
-	st := T.Inst.StateV.GetSession(F.ID.IP)
-	if sf == nil || st == nil {
-		return fmt.Errorf("no session")
-	}
-	f, err := F.Inst.BuilderV.NewFrameV1(F.ID.IP, T.ID.IP, frame.NetworkTraffic, nil, []byte("c14 traffic payload after key setup ........."), nil)
+	data, err := w.sealTraffic(from, to)
 	if err != nil {
 		return err
 	}
+	return w.unsealTraffic(from, to, data)
+}
+
+// sealTraffic seals one traffic frame at from for to and returns its bytes (the frame is "on its way").
+func (w *world) sealTraffic(from, to int) ([]byte, error) {
+	F, T := w.node(from), w.node(to)
+	sf := F.Inst.StateV.GetSession(T.ID.IP)
+	if sf == nil {
+		return nil, fmt.Errorf("no session")
+	}
+	f, err := F.Inst.BuilderV.NewFrameV1(F.ID.IP, T.ID.IP, frame.NetworkTraffic, nil, []byte("c14 traffic payload after key setup ........."), nil)
+	if err != nil {
+		return nil, err
+	}
 	defer f.ReturnToPool()
 	if err := f.Seal(sf); err != nil {
-		return fmt.Errorf("seal: %w", err)
+		return nil, fmt.Errorf("seal: %w", err)
 	}
 	data, _ := f.FrameDataWithMargins(0, 0)
+	return append([]byte(nil), data...), nil
+}
+
+// unsealTraffic lets `to` receive a traffic frame that `from` sealed.
+func (w *world) unsealTraffic(from, to int, data []byte) error {
+	F, T := w.node(from), w.node(to)
+	st := T.Inst.StateV.GetSession(F.ID.IP)
+	if st == nil {
+		return fmt.Errorf("no session")
+	}
 	g, err := T.Inst.BuilderV.ParseFrame(append([]byte(nil), data...), nil, 0)
 	if err != nil {
 		return err
 	}
 	defer g.ReturnToPool()
 	return g.Unseal(st)
+}
+
+type staleFrame struct {
+	from, to int
+	data     []byte
 }
 
 type setup struct {
@@ -318,6 +344,26 @@ func buildWorld(r *rand.Rand, s setup, retries int) (*world, error) {
 				return nil, fmt.Errorf("prior traffic failed: %v %v", e1, e2)
 			}
 		}
+		// a longer stream in both directions; its last frames are still on their way when the keys are lost and set
+		// up again (the setup messages are priority frames and overtake them): they arrive after the new setup
+		if r.IntN(2) == 0 {
+			n := 70 + r.IntN(60)
+			for dir := 0; dir < 2; dir++ {
+				for i := 0; i < n; i++ {
+					data, err := w.sealTraffic(dir, 1-dir)
+					if err != nil {
+						return nil, fmt.Errorf("prior stream: %v", err)
+					}
+					if i < n-3 {
+						if err := w.unsealTraffic(dir, 1-dir, data); err != nil {
+							return nil, fmt.Errorf("prior stream: %v", err)
+						}
+					} else {
+						w.stale = append(w.stale, staleFrame{dir, 1 - dir, data})
+					}
+				}
+			}
+		}
 		loser := s.prior - 1
 		if ls := w.node(loser).Inst.StateV.GetSession(w.peerOf(loser).ID.IP); ls != nil {
 			ls.SetEncryptionSession(state.NewEncryptionSession())
@@ -335,6 +381,13 @@ func buildWorld(r *rand.Rand, s setup, retries int) (*world, error) {
 // verdict evaluates the quiescent state. Returns a violation signature or "".
 func (w *world) verdict() (sig, msg string) {
 	aUp, bUp := w.setUp(0), w.setUp(1)
+	// what was still on its way under the previous keys arrives now (whatever the receiver makes of it)
+	for _, sf := range w.stale {
+		_ = w.unsealTraffic(sf.from, sf.to, sf.data)
+	}
+	if len(w.stale) > 0 {
+		w.staleDelivered = true
+	}
 	if aUp && bUp {
 		var e1, e2 error
 		for i := 0; i < 3 && e1 == nil && e2 == nil; i++ {
@@ -498,6 +551,9 @@ func runSchedule(res *core.Result, r *rand.Rand, s setup, initSet int, retries i
 	res.Case(desc+"|"+schedule, nontrivial)
 	if initSet >= 2 {
 		res.Count("schedules_both_initiate", 1)
+	}
+	if w.staleDelivered {
+		res.Count("schedules_with_frames_of_the_previous_keys_arriving_after_the_setup", 1)
 	}
 	return branch, true
 }
